@@ -45,18 +45,30 @@ impl C13 {
     }
 
     fn swap_checks(&mut self, c: &mut SimCore, pre: &Obs, sender: &str, pool_id: &str, offer: &Coin, ask: &str, belief: &Option<Decimal>, tol: &Option<Decimal>) -> MResult {
+        self.swap_checks_inner(c, pre, sender, pool_id, offer, ask, belief, tol, false)
+    }
+
+    /// `derived`: an offer the monitor made up from the observed state; the sender is funded for it
+    /// on the fork
+    #[allow(clippy::too_many_arguments)]
+    fn swap_checks_inner(&mut self, c: &mut SimCore, pre: &Obs, sender: &str, pool_id: &str, offer: &Coin, ask: &str, belief: &Option<Decimal>, tol: &Option<Decimal>, derived: bool) -> MResult {
         let p = match pre.pool(pool_id) {
             Some(p) => p.pool_info.clone(),
             None => return Ok(()),
         };
+        let outer = c.w.snapshot();
+        if derived {
+            c.w.faucet(&cosmwasm_std::Addr::unchecked(sender), vec![offer.clone()]);
+        }
         let well_formed = p.status.swaps_enabled
             && p.asset_denoms.contains(&offer.denom)
             && p.asset_denoms.iter().any(|d| d == ask)
             && offer.denom != ask
             && p.assets.iter().all(|a| !a.amount.is_zero())
-            && bal(&pre.bal, sender, &offer.denom) >= offer.amount.u128()
+            && (derived || bal(&pre.bal, sender, &offer.denom) >= offer.amount.u128())
             && !offer.amount.is_zero();
         if !well_formed {
+            c.w.restore(&outer);
             return Ok(());
         }
         let q: Result<SimulationResponse, _> = c.w.app.wrap().query_wasm_smart(
@@ -65,7 +77,10 @@ impl C13 {
         );
         let q = match q {
             Ok(q) => q,
-            Err(_) => return Ok(()),
+            Err(_) => {
+                c.w.restore(&outer);
+                return Ok(());
+            }
         };
         let net = q.return_amount.u128();
         let snap = c.w.snapshot();
@@ -171,6 +186,21 @@ impl C13 {
                         // small relative to the pool so that the curve's own impact is negligible
                         let small = Q::int(offer.amount.u128()).mul(&Q::int(10u128.pow(mx - p.asset_decimals[i] as u32))).mul(&Q::int(100)).le(&Q::new(num_bigint::BigInt::from(mnv.clone()), 1.into()));
                         // amounts large enough that one smallest unit of either side is below 0.01%
+                        // executed although the loss against the (pre-trade, near-peg) price is far beyond
+                        // the tolerance: holds for offers of any size - a large offer only loses more
+                        // (reserves within 2% of each other: the pre-trade price is within a few percent
+                        // of the peg, which the constant term of the band absorbs)
+                        let roughly_pegged = (mxv - mnv) * 50u32 <= *mxv;
+                        if roughly_pegged && !small && off_n.floor_u128() > 10_000 && net >= 10_000 && offer.amount.u128() >= 10_000 {
+                            let loss = off_n.sub(&net_n).div(&off_n).max(&Q::zero());
+                            c.stats.bump(if p.assets.len() > 2 { "probe.c13.stable_large_offer_checked_3plus_assets" } else { "probe.c13.stable_large_offer_checked" });
+                            if ok_actual && loss.cmp(&s.mul(&Q::int(4)).add(&Q::ratio(3, 100))).is_gt() {
+                                let mut v = viol("C13.slippage_not_enforced", format!("stableswap {pool_id} decimals {:?}: large offer {offer}, loss vs peg {:.6} > 4 x tolerance {:.6} but executed", p.asset_decimals, loss.to_f64(), s.to_f64()));
+                                v.finding = Some("S3-stableswap-slippage-units".into());
+                                v.truncate = false;
+                                return Err(v);
+                            }
+                        }
                         if near_peg && small && off_n.floor_u128() > 10_000 && net >= 10_000 && offer.amount.u128() >= 10_000 {
                             let loss = off_n.sub(&net_n).div(&off_n).max(&Q::zero());
                             if ok_actual && loss.cmp(&s.mul(&Q::int(4)).add(&Q::ratio(1, 1000))).is_gt() {
@@ -192,7 +222,7 @@ impl C13 {
             }
             Ok(())
         })();
-        c.w.restore(&snap);
+        c.w.restore(&outer);
         res
     }
 
@@ -373,6 +403,20 @@ impl Monitor for C13 {
                 if m.len() == 1 {
                     let (d, a) = m.iter().next().unwrap();
                     self.swap_checks(c, pre, sender, pool_identifier, &coin(*a, d.clone()), ask_asset_denom, belief_price, max_slippage)?;
+                    // derived: on stableswap pools, a sale of 90% of the offered asset's reserve
+                    // against every other asset, under the step's tolerance (large offers are where
+                    // a mis-measured spread shows)
+                    if let Some(p) = pre.pool(pool_identifier) {
+                        if matches!(p.pool_info.pool_type, PoolType::StableSwap { .. }) && p.pool_info.asset_denoms.contains(d) {
+                            let big = reserve(&p.pool_info, d) / 10 * 9;
+                            let asks: Vec<String> = p.pool_info.asset_denoms.iter().filter(|x| *x != d).cloned().collect();
+                            for ask in asks {
+                                if big > 0 {
+                                    self.swap_checks_inner(c, pre, sender, pool_identifier, &coin(big, d.clone()), &ask, &None, max_slippage, true)?;
+                                }
+                            }
+                        }
+                    }
                 }
             }
             PmMsg::ExecuteSwapOperations { operations, minimum_receive: Some(m), receiver, max_slippage } => {
